@@ -78,6 +78,8 @@ fn cmp_errs(base: &[ErrDesc], got: &[ErrDesc], sm: &SpanMap, tag: u32) -> Result
 fn one_kind<'s, I: Kind<'s>>(g: &G, mk: &dyn Fn() -> I, sm: &SpanMap, tag: u32, base: &Base, after: &dyn Fn(&str) -> Result<(), String>, l: &mut Local) -> Result<(), (String, String)> {
     let mut bld = Bld::<I, Rich<'s, I::Tok, I::Spn>>::new(g, true);
     bld.cap_spans = true;
+    // BorrowInput kinds: half of the cases go through any_ref / select_ref! (the baseline uses any / select!)
+    bld.borrow_prims = I::BORROW && g.size() % 2 == 1;
     let p = bld.build(g);
     BAD_CTX.with(|b| b.set(false));
     for (mode, b) in [("parse", &base.parse), ("check", &base.check)] {
@@ -453,4 +455,13 @@ pub fn run(tier: Tier, seed: u64) -> i32 {
         }
         Ok(())
     })
+}
+
+/// one generated case from a raw choice tape (the coverage-guided tier feeds tapes decoded from bytes)
+pub fn fuzz_one(tape: &[u32], l: &mut Local) -> CaseRes {
+    let (g, input, seed) = decode(tape);
+    if !wf(&g) {
+        return Ok(());
+    }
+    check_inner("short-random", &g, &input, seed, l)
 }
